@@ -70,11 +70,11 @@ Proof.
     replace (length fk) with (length ids - start_line (skip_sub sk)) by lia.
     rewrite <- skipn_length, firstn_all.
     destruct sk as [[k|i0 sub]|]; simpl in *; try contradiction.
-    + now rewrite app_nil_r.
     + subst i0. simpl. destruct sub as [[k|? ?]|]; simpl in *; try contradiction; now rewrite app_nil_r.
-  - rewrite fwords_blk, Hw. destruct sk as [[k|i0 sub]|]; simpl in *; try contradiction.
+    + now rewrite app_nil_r.
+  - rewrite fwords_blk, Hw. destruct sk as [[k|i0 sub]|]; try (simpl in Hwf; contradiction).
     + now rewrite words_from_child.
-    + rewrite wfk_0_none, <- bwords_blk with (st := st) (r := r). reflexivity.
+    + cbn [skip_idx skip_sub]. rewrite wfk_0_none, words_from_none, bwords_blk. reflexivity.
 Qed.
 
 (* complete child fragments account for all the words of their children *)
@@ -84,7 +84,7 @@ Proof.
   induction fk as [|f fk IH]; intros i0 sub0 H Hne; [congruence|].
   destruct (H 0 f eq_refl) as (kid & Hk & _ & Hwf & Hc). rewrite Nat.add_0_r in Hk. simpl in Hwf, Hc.
   rewrite (wfk_step _ _ _ _ Hk), <- (cinv_words _ _ _ Hc Hwf).
-  unfold fwords_l at 1. simpl flat_map. rewrite <- app_assoc. f_equal. fold (fwords_l fk).
+  rewrite fwords_l_cons, <- app_assoc. f_equal.
   destruct fk as [|g fk'].
   - simpl. now rewrite Nat.add_1_r.
   - replace (i0 + length (f :: g :: fk')) with (S i0 + length (g :: fk')) by (simpl; lia).
@@ -93,6 +93,12 @@ Qed.
 
 Lemma cinv_is_fblk b sk f : cinv b sk f -> exists st i y mt mb pt pb bt bb h fk, f = FBlk st i y mt mb pt pb bt bb h fk.
 Proof. intros []; eauto 12. Qed.
+
+Lemma skipn_add {A} (l : list A) : forall a b, skipn a (skipn b l) = skipn (b + a) l.
+Proof.
+  induction l as [|x l IH]; intros a b; [now rewrite !skipn_nil|].
+  destruct b; simpl; [reflexivity|]. apply IH.
+Qed.
 
 (* ---- find_earlier_page_break ---- *)
 Definition FE (b : box) : Prop :=
@@ -126,8 +132,8 @@ Proof.
     by (intros Hne; now apply covers_words).
   replace (i0 + length (ch :: rest)) with (S i0 + length rest) by (simpl; lia).
   destruct (fe_go find_earlier_f rest) as [[kept' res']|] eqn:Erest.
-  - inversion Hgo; subst kept res. destruct (IH _ _ _ _ Hcov' eq_refl) as (jj & x & -> & Hwx & Hw).
-    exists jj, x. repeat split; auto. unfold fwords_l in *. simpl. rewrite <- !app_assoc. now rewrite Hw.
+  - injection Hgo as <- <-. destruct (IH _ _ _ _ Hcov' eq_refl) as (jj & x & -> & Hwx & Hw).
+    exists jj, x. repeat split; auto. rewrite !fwords_l_cons, <- !app_assoc. now rewrite Hw.
   - (* no opportunity further right: between ch and its successor, or inside ch *)
     assert (Hinside : forall kept res,
       (if negb (avoid (frag_st_bi ch)) then
@@ -139,24 +145,24 @@ Proof.
         fwords_l kept ++ words_from_kids words_from kids jj x =
         fwords_l (ch :: rest) ++ words_from_kids words_from kids (S i0 + length rest) None).
     { intros kept0 res0 Hin. destruct (negb (avoid (frag_st_bi ch))); [|discriminate].
-      destruct (find_earlier_f ch) as [[ngc res1]|] eqn:Efe; [|discriminate]. inversion Hin; subst kept0 res0.
+      destruct (find_earlier_f ch) as [[ngc res1]|] eqn:Efe; [|discriminate]. injection Hin as <- <-.
       pose proof (Forall_nth _ _ _ _ HFE Hk) as HFEk.
       destruct (HFEk _ _ _ _ (forallb_nth _ _ _ _ Hwfk Hk) Hwf Hc Efe) as [Hw1 Hw2].
       exists i0, (Some res1). rewrite Hidx. repeat split; auto.
       - eapply wf_skip_kids_nth; eassumption.
       - destruct (cinv_is_fblk _ _ _ Hc) as (st & i & y & mt & mb & pt & pb & bt & bb & h & fk0 & ->).
-        rewrite (wfk_step _ _ _ _ Hk). unfold fwords_l at 1. simpl flat_map. rewrite fwords_blk, app_nil_r.
-        rewrite app_assoc, Hw1. unfold fwords_l at 2. simpl flat_map. rewrite <- app_assoc. f_equal.
-        fold (fwords_l rest). destruct rest as [|p rest']; [simpl; now rewrite Nat.add_0_r|].
+        rewrite (wfk_step _ _ _ _ Hk), fwords_l_one, fwords_set_kids, fwords_l_cons.
+        rewrite app_assoc, Hw1, <- app_assoc. f_equal.
+        destruct rest as [|p rest']; [simpl; now rewrite Nat.add_0_r|].
         symmetry. apply Hrestw. congruence. }
     destruct rest as [|p rest'].
     + apply Hinside in Hgo. exact Hgo.
-    + destruct (negb (avoid (fold_breaks (before_chain (Some ch) ++ after_chain_frag p)))).
-      * inversion Hgo; subst kept res.
+    + match type of Hgo with (if ?cnd then _ else _) = _ => destruct cnd end.
+      * injection Hgo as <- <-.
         destruct (Hcov 1 p eq_refl) as (kidp & Hkp & Hidxp & _ & _).
         exists (S i0), None. rewrite Hidxp. replace (i0 + 1) with (S i0) in * by lia. repeat split; auto.
         -- eapply wf_skip_kids_nth; [eassumption|apply wf_skip_none].
-        -- unfold fwords_l at 1 2. simpl flat_map. rewrite app_nil_r, <- app_assoc. f_equal.
+        -- rewrite fwords_l_one, fwords_l_cons, <- app_assoc. f_equal.
            symmetry. apply Hrestw. congruence.
       * apply Hinside in Hgo. exact Hgo.
 Qed.
@@ -180,8 +186,8 @@ Proof.
       change (length (FLine wid ly lh lr (s_orphans st) (s_widows st) :: fk')) with (length fk0) in *.
       destruct ((length fk0 <? s_widows st) || (length fk0 - s_widows st <? s_orphans st)) eqn:Econd; [discriminate|].
       apply orb_false_elim in Econd. destruct Econd as [E1 E2]. apply Nat.ltb_ge in E1. apply Nat.ltb_ge in E2.
-      inversion Hfe; subst kept res. clear Hfe.
       set (idx := length fk0 - s_widows st) in *.
+      injection Hfe as <- <-.
       set (k0 := start_line (skip_sub sk)) in *.
       assert (Hkeep : lines_ok ids (s_orphans st) (s_widows st) k0 (firstn idx fk0)) by now apply lines_ok_firstn.
       assert (Hlk : length (firstn idx fk0) = idx) by (rewrite firstn_length; lia).
@@ -190,12 +196,12 @@ Proof.
       assert (Hlt : k0 + idx < length ids) by lia.
       apply Nat.ltb_lt in Hlt. rewrite Hlt. apply Nat.ltb_lt in Hlt.
       split.
-      * rewrite words_from_child. simpl. rewrite app_nil_r.
+      * rewrite fwords_blk, (lines_ok_words _ _ _ _ _ Hok).
+        rewrite words_from_child. cbn [words_from_kids words_from bwords_l flat_map]. rewrite app_nil_r.
         rewrite (lines_ok_words _ _ _ _ _ Hkeep), Hlk.
-        rewrite fwords_blk, (lines_ok_words _ _ _ _ _ Hok).
         replace (length fk0) with (length (skipn k0 ids)) by (rewrite skipn_length; lia).
         rewrite firstn_all. rewrite <- (firstn_skipn idx (skipn k0 ids)) at 2. f_equal.
-        rewrite skipn_skipn. f_equal. lia.
+        now rewrite skipn_add.
       * rewrite wf_skip_child. simpl. exact Hlt.
     + (* block children *)
       assert (Hgo : fe_go find_earlier_f fk = Some (kept, res)).
